@@ -6,7 +6,8 @@ from symx import is_sym, And, Or
 import coba.environments.filters as ef
 from coba.environments.filters import Repr, Flatten, Sparsify, Densify, Noise, Batch, Finalize, Unbatch
 from coba.environments import Environments
-from coba.pipes.rows import HeadDense
+from coba.pipes.rows import HeadDense, LazySparse
+import copy as _copy
 from coba.primitives import Categorical, BinaryReward, DiscreteReward, HammingReward, L1Reward, is_batch
 
 EXPLANATION = ("Chains of the real representation filters (Repr, Flatten, Sparsify, Densify, Noise on actions, Batch, Finalize and the Environments shortcuts) "
@@ -28,6 +29,8 @@ ACTION_KINDS = {
     'nested': lambda: [((1,2),3),((4,5),6),((7,8),9)],
     'sparse': lambda: [{'a':1},{'b':2},{'a':3,'c':4}],
     'densecat': lambda: [(Categorical('u',LEVELS),1),(Categorical('v',LEVELS),2),(Categorical('w',LEVELS),3)],
+    'nestedcat': lambda: [[1,[Categorical('u',LEVELS),5]], [2,[Categorical('v',LEVELS),6]], [3,[Categorical('w',LEVELS),7]]],   # mutable lists nesting a categorical
+    'lazysparse': lambda: [LazySparse({'a':1}), LazySparse({'a':1,'b':2}), LazySparse({'c':3})],                                # row views; the first is a subset of the second
     'head':   lambda: [HeadDense([1,0,5],{'x':0,'y':1,'z':2}), HeadDense([0,1,5],{'x':0,'y':1,'z':2}), HeadDense([2,2,5],{'x':0,'y':1,'z':2})],   # dense rows carrying header names (as LazyDense/HeadRows produce)
 }
 FILTERS = {
@@ -54,7 +57,7 @@ def make_rewards(sym, kind, actions, vals, i):
         return BinaryReward(actions[i % len(actions)], vals[0])
     if kind == 'discrete': return DiscreteReward(list(actions), list(vals))
     if kind == 'lambda':
-        return (lambda a, acts=list(actions), vs=list(vals): next(v for x,v in zip(acts,vs) if x == a))
+        return (lambda a, acts=_copy.deepcopy(list(actions)), vs=list(vals): next(v for x,v in zip(acts,vs) if x == a))     # the function holds its OWN copy of the actions
     if kind == 'l1': return L1Reward(actions[i % len(actions)])
     raise ValueError(kind)
 
@@ -88,7 +91,7 @@ def unbatch(inter):
         else: out.append(d)
     return out
 
-@obligation('C10','rewards_follow_actions', bounds={'quick':"2 interactions (equal action sets, or the first one reversed with one action fewer) x 3 actions of 8 kinds (incl. header-carrying dense rows); optional IGL feedbacks as list or callable; rewards as list / BinaryReward(value k/4) / DiscreteReward / callable / L1Reward (numeric actions); optional logged action+reward+probability; every single filter of 13 configurations and 11 two-filter chains",
+@obligation('C10','rewards_follow_actions', bounds={'quick':"2 interactions (equal action sets, or the first one reversed with one action fewer) x 3 actions of 10 kinds (incl. header-carrying dense rows, lists nesting a categorical, sparse row views one of which is a subset of another); optional IGL feedbacks as list or callable; rewards as list / BinaryReward(value k/4) / DiscreteReward / callable / L1Reward (numeric actions); optional logged action+reward+probability; every single filter of 13 configurations and 11 two-filter chains",
                                                    'thorough':"all ordered pairs of the 13 filter configurations"},
             functions=FUNCS, params=params, classify=_classify, budget={'quick':80,'thorough':1500})
 def rewards_follow_actions(sym, chain, ak):
